@@ -64,3 +64,9 @@ Qed.
 
 Lemma fold_div_zero n : fold_div n 0 = None /\ fold_mod n 0 = None.
 Proof. split; reflexivity. Qed.
+
+Lemma divmod_def_iff n d q r :
+  divmod_def n d q r = true <-> (n = d * q + r /\ 0 <= r <= Z.abs d - 1).
+Proof.
+  unfold divmod_def. rewrite !Bool.andb_true_iff, Z.eqb_eq, !Z.leb_le. tauto.
+Qed.
